@@ -51,17 +51,17 @@ D.update({
  'C11-w3-1': ("bound signature strips the first parameter before *args/**kwargs are resolved", "a decorated (functools.wraps pass-through) method/classmethod/__init__ accessed bound", "C11", "callable-kind family added by the builder: {method, classmethod, staticmethod, __call__, __init__} x {plain, functools.wraps pass-through} x every bound/unbound access, compared with inspect.signature of the very object"),
  'C11-w3-2': ("param to_string collapses whitespace, also inside string literals of defaults/annotations", "a default or annotation containing a string literal with two or more blanks / tab / newline", "C11", "default/annotation alphabet extended by the builder with white-space string literals ('a  b', tab, triple-quoted newline, '    ', ',  ') rotated over every position; compared by re-executing to_string()"),
  'C12-w3-1': ("safe-path filter moved out of _load_builtin_module and applied in one of two call sites only: auto_import_modules branch imports with the project sys.path", "a project file named like an auto_import_modules entry (gi.py) and a buffer importing it", "C12", ""),
- 'C12-w3-2': ("Project._get_base_sys_path drops the defensive copy: `remove('')` edits the host's live sys.path under InterpreterEnvironment", "Script(environment=InterpreterEnvironment()) in a host whose sys.path contains ''", "C12", ""),
+ 'C12-w3-2': ("Project._get_base_sys_path drops the defensive copy: `remove('')` edits the host's live sys.path under InterpreterEnvironment", "Script(environment=InterpreterEnvironment()) in a host whose sys.path contains ''", "C12", "level added by the builder: host sys.path shape (no '', '' first/middle/twice, relative entries) x environment kind (SameEnvironment, Script(environment=InterpreterEnvironment()), jedi.Interpreter) x project options x symbols x forms, judged 'host sys.path identical before and after every call' (reported at sys.path-changed@host; evaluated on /repo 2ab0e3b because fix 9abf6b1 later rewrote the patched function - the two other sites in that run are the defect that 9abf6b1 repairs)"),
  'C13-w3-1': ("get_key_paths iterates the live object (islice(obj)) instead of obj.keys(): dict subclasses' __iter__ runs in safe mode", "dict subclass with __iter__, completion inside subscript brackets `reg['`", "C13", "family `keys` added by the builder: dict-key completion on plain dict, OrderedDict, defaultdict and dict subclasses with counting __iter__/__next__/keys/__getitem__/__len__/__contains__ (class statements and type()-created), reached by name / attribute / index / nested key, 9 cursor shapes"),
  'C13-w3-2': ("getattr_static._safe_hasattr looks only in type(obj).__dict__: descriptor types that inherit __get__ count as plain attributes", "`class lazy(property)` / `class IntField(Field)` members on live objects", "C13", "levels added by the builder: property / non-data / data descriptor / metaclass property whose type only INHERITS __get__/__set__, on class, base and metaclass, plain and shadowed in the instance dict"),
  'C14-w3-1': ("is_crashed guard dropped at the top of CompiledSubprocess._send: a Script kept from before the crash raises ValueError (write to closed file)", "old Script re-queried after the crash was noticed through another Script", "C14", ""),
  'C14-w3-2': ("one shared try around the stream-closing loop in _cleanup_process: stdout/stderr of a helper that died before the send stay open", "crash phase 'before send' + fd table inspection", "C14", ""),
  'C15-w3-1': ("the memoiser forgets empty results: unresolvable diamonds are re-inferred along every path", "diamond-shaped definition graph with an unresolvable bottom", "C15", ""),
  'C15-w3-2': ("recursion limit raised only during Script entry points; lazily inferring result objects run under the host limit", "get_names()/search()/goto() then .infer() on a 45+ chain", "C15", "two-step family added by the builder: Names from get_names/search/goto/complete, then infer/goto/docstring/get_signatures/get_type_hint/defined_names/execute on them, on every program at n <= 64; workers now run under the recursion limit a default host has after `import jedi` from the tree under test (measured in a clean child) instead of a limit raised by the pool"),
- 'C19-w3-1': ("Project search no longer scans foo.py for definitions named foo", "a definition spelled like the basename of its file", "C19", ""),
- 'C19-w3-2': ("search regex memoised by name without the `complete` flag", "search('render') then complete_search('render') in one process", "C19", ""),
- 'C20-w3-1': ("project dir prefixed only if not already on the sys path: it stays where the user listed it", "Project(proj, sys_path=[lib, proj])", "C20", ""),
- 'C20-w3-2': ("environment base sys path cached at module scope per executable: InterpreterEnvironment and SameEnvironment share it", "Interpreter, sys.path change, Interpreter again / Script(SameEnvironment)", "C20", ""),
+ 'C19-w3-1': ("Project search no longer scans foo.py for definitions named foo", "a definition spelled like the basename of its file", "C19", "family N added by the builder: every definition kind named exactly like its container (X.py at 4 places, X/__init__.py at 3, X.pyi at 2), 166 trees"),
+ 'C19-w3-2': ("search regex memoised by name without the `complete` flag", "search('render') then complete_search('render') in one process", "C19", "first seen but exit 2 (a process-level memo does not replay from one input in a fresh process); the builder made every tree one explicit call history (search then complete_search with the same string, reverse order, triple), replays re-execute the whole history in one fresh process, every tree got its own identifier token; reported as answer-depends-on-earlier-searches@complete_search"),
+ 'C20-w3-1': ("project dir prefixed only if not already on the sys path: it stays where the user listed it", "Project(proj, sys_path=[lib, proj])", "C20", "the builder added sys_path values that contain the project directory ([P], [P,b], [b,P], [b,a,P], [b,P,P], str and Path) and added_sys_path [P], [b,P] to the full configuration product"),
+ 'C20-w3-2': ("environment base sys path cached at module scope per executable: InterpreterEnvironment and SameEnvironment share it", "Interpreter, sys.path change, Interpreter again / Script(SameEnvironment)", "C20", "family added by the builder: all event sequences of length <= 4 over {Interpreter query, Script+SameEnvironment query, sys.path.append, sys.path.insert(0), insert project dir at 1} (660 sequences, 5 fresh interpreters), each query judged against the model fed with that environment's own current path (evaluated on /repo 2ab0e3b: fix 9abf6b1 later rewrote the patched function)"),
 })
 
 results = {}
